@@ -112,7 +112,7 @@ class Kinds(object):
                     if kd:
                         return kd
                 if isinstance(val, ast.DictComp):
-                    src = N.txt(val.generators[0].iter)
+                    src = K.rtxt(self.func, val.generators[0].iter)
                     if 'basename' in N.txt(val.key):
                         if 'apps_dir' in src:
                             return 'container'
@@ -128,7 +128,7 @@ class Kinds(object):
         return None
 
     def _comp_kind(self, comp, depth):
-        src = N.txt(comp.generators[0].iter)
+        src = K.rtxt(self.func, comp.generators[0].iter)
         elt = N.txt(comp.elt)
         if 'basename' in elt:
             if 'apps_dir' in src:
@@ -313,20 +313,21 @@ def _terminal_files(ctx, sync, graph, loop):
         graph, lambda c: K.is_meth(c, '_configure'))
         if n in K.loop_body_nodes(loop)]
     ctx.require(confs, 'reconfigure of an existing container')
+    body = K.loop_body_nodes(fl)
+    found = [n for n in body if n.kind == 'test' and
+             'exists' in N.txt(n.ast)]
     for node in confs:
-        ok = K.guarded_by(graph, node,
-                          lambda e: e.src is fl and e.kind == 'done',
-                          start=loop)
-        # and no terminal file was found: the loop can be left to 'done'
-        # only without break
-        body = K.loop_body_nodes(fl)
-        found = [n for n in body if n.kind == 'test' and
-                 'exists' in N.txt(n.ast)]
-        brk = all(any(isinstance(m.ast, ast.Break)
-                      for m in C.reach([e.dst for e in t.succ
-                                        if e.kind == 'true'],
-                                       blocked=[fl]))
-                  for t in found) and bool(found)
+        # reachable only after the file loop ran, and on no path on which
+        # one of the files was found (flags and None-results of an extracted
+        # search are followed)
+        ok = K.guarded_by(graph, node, lambda e: e.src is fl, start=loop)
+        # from the head of the file loop, taking the 'found' outcome of the
+        # first existence test met
+        path = K.find_path_cp(
+            graph, fl, [node], cut_node=lambda n: n is loop,
+            cut_edge=lambda e: (e.src in found and e.kind == 'false') or
+            (e.src is fl and e.kind == 'done'), follow_exc=False)
+        brk = bool(found) and path is None
         ctx.ob('C13.3', sync, node, ok and brk,
                'an existing container is started again only if none of the '
                'terminal files exists (else-branch of the file loop)')
